@@ -243,30 +243,13 @@ outer:
 	for {
 		select {
 		case <-s.chPathEvent:
-			s.pathEventsMutex.Lock()
-			events := s.pathEvents
-			s.pathEvents = nil
-			s.pathEventsMutex.Unlock()
-
-			for _, ev := range events {
-				pa := ev.pa
-
-				if ev.ready {
-					if s.AlwaysRemux && !pa.SafeConf().SourceOnDemand {
-						if _, ok := s.muxers[pa.Name()]; !ok {
-							s.createMuxer(pa.Name(), "", "")
-						}
-					}
-				} else {
-					c, ok := s.muxers[pa.Name()]
-					if ok && c.remoteAddr == "" { // created with "always remux"
-						c.Close()
-						delete(s.muxers, pa.Name())
-					}
-				}
-			}
+			s.processPathEvents()
 
 		case req := <-s.chGetMuxer:
+			// notifications that precede the request have to be applied first:
+			// a reader is admitted by a path after the path manager has notified that the path is ready.
+			s.processPathEvents()
+
 			mux, ok := s.muxers[req.path]
 			switch {
 			case ok:
@@ -355,6 +338,32 @@ outer:
 	s.ctxCancel()
 
 	s.httpServer.close()
+}
+
+// processPathEvents applies queued notifications of the path manager.
+func (s *Server) processPathEvents() {
+	s.pathEventsMutex.Lock()
+	events := s.pathEvents
+	s.pathEvents = nil
+	s.pathEventsMutex.Unlock()
+
+	for _, ev := range events {
+		pa := ev.pa
+
+		if ev.ready {
+			if s.AlwaysRemux && !pa.SafeConf().SourceOnDemand {
+				if _, ok := s.muxers[pa.Name()]; !ok {
+					s.createMuxer(pa.Name(), "", "")
+				}
+			}
+		} else {
+			c, ok := s.muxers[pa.Name()]
+			if ok && c.remoteAddr == "" { // created with "always remux"
+				c.Close()
+				delete(s.muxers, pa.Name())
+			}
+		}
+	}
 }
 
 func (s *Server) createMuxer(pathName string, remoteAddr string, query string) *muxer {
